@@ -657,6 +657,13 @@ func genRequest(r *rand.Rand, o genOpts) request {
 		}
 	}
 	req.prefix.elems = pre
+	// one request in six carries its prefix in the deprecated gNMI 0.3 `element` field (a string list; list keys as
+	// text "[k=v]" in StrPath's sorted order) - utils.StrPath gives the same text, so the request is as valid or
+	// invalid as with `elem`
+	if len(pre) > 0 && r.Intn(6) == 0 {
+		req.prefix.elems = nil
+		req.prefix.element = elemsToElement(pre)
+	}
 	if len(pre) == 0 && req.prefix.target == "" && r.Intn(2) == 0 {
 		req.prefix.isNil = true
 	}
@@ -672,11 +679,14 @@ func genRequest(r *rand.Rand, o genOpts) request {
 		if r.Intn(5) == 0 && (req.prefix.target != "" || o.badTgt > 0) {
 			p.target = ""
 		}
-		if o.oddNames && len(es) > 0 && r.Intn(10) == 0 { // gNMI 0.3 form
+		if o.oddNames && len(es) > 0 && r.Intn(10) == 0 { // gNMI 0.3 form, names only
 			p.elems = nil
 			for _, e := range es {
 				p.element = append(p.element, e.name)
 			}
+		} else if len(es) > 0 && r.Intn(8) == 0 { // gNMI 0.3 form with the keys as text
+			p.elems = nil
+			p.element = elemsToElement(es)
 		}
 		if op.del {
 			req.deletes = append(req.deletes, p)
@@ -755,6 +765,21 @@ func genRequest(r *rand.Rand, o genOpts) request {
 		req.exts = append(req.exts, ext{kind: 'O', decodes: false}) // a second one is never looked at... unless it is the first with that id
 	}
 	return req
+}
+
+// elemsToElement renders path elements as gNMI 0.3 `element` strings: name followed by [k=v] in sorted key order
+func elemsToElement(es []elem) []string {
+	out := []string{}
+	for _, e := range es {
+		ks := append([][2]string{}, e.keys...)
+		sort.Slice(ks, func(i, j int) bool { return ks[i][0] < ks[j][0] })
+		s := e.name
+		for _, kv := range ks {
+			s += "[" + kv[0] + "=" + kv[1] + "]"
+		}
+		out = append(out, s)
+	}
+	return out
 }
 
 func hasPrefixElems(es, pre []elem) bool {
